@@ -2,9 +2,12 @@
 package main
 
 import (
+	"bytes"
 	"context"
+	"encoding/binary"
 	"encoding/json"
 	"fmt"
+	"math"
 	"os"
 	"runtime/debug"
 	"sort"
@@ -17,6 +20,8 @@ import (
 	"github.com/siglens/siglens/pkg/integrations/prometheus/promql"
 	"github.com/siglens/siglens/pkg/segment"
 	"github.com/siglens/siglens/pkg/segment/memory/limit"
+	"github.com/siglens/siglens/pkg/segment/metadata"
+	"github.com/siglens/siglens/pkg/segment/reader/microreader"
 	"github.com/siglens/siglens/pkg/segment/query"
 	sutils "github.com/siglens/siglens/pkg/segment/utils"
 	"github.com/siglens/siglens/pkg/segment/writer"
@@ -346,5 +351,169 @@ func workerQuery(dir, outPath string, withMetrics bool) {
 	}
 	out.Done = true
 	flush()
+	os.Exit(0)
+}
+
+// ---------- decoder worker: the real readers of the unchecksummed files on raw bytes ----------
+type decCase struct {
+	Dec  string `json:"dec"` // bsu | mbsu | mnm | cmi (payload incl. the type byte)
+	Data []byte `json:"data"`
+}
+
+type decCol struct {
+	Name []byte `json:"name"`
+	Off  uint64 `json:"off"`
+	Len  uint32 `json:"len"`
+}
+type decBlock struct {
+	Num  uint16   `json:"num"`
+	Cols []decCol `json:"cols"`
+}
+type decRange struct {
+	Key []byte `json:"key"`
+	Nil bool   `json:"nil,omitempty"`
+	Ty  uint8  `json:"ty"`
+	Mn  uint64 `json:"mn"`
+	Mx  uint64 `json:"mx"`
+}
+type decOut struct {
+	I      int         `json:"i"`
+	Code   int         `json:"code"` // 0 result, 1 error, 2 panic
+	Msg    string      `json:"msg,omitempty"`
+	Names  [][]byte    `json:"names,omitempty"`
+	Mbs    [][3]uint64 `json:"mbs,omitempty"`
+	Sums   [][3]uint64 `json:"sums,omitempty"`
+	Blocks []decBlock  `json:"blocks,omitempty"`
+	Ranges []decRange  `json:"ranges,omitempty"`
+	Bloom  *[3]uint64  `json:"bloom,omitempty"`
+}
+
+func decodeOne(c decCase, tmp string) (o decOut) {
+	defer func() {
+		if r := recover(); r != nil {
+			o = decOut{Code: 2, Msg: fmt.Sprintf("panic: %v%s", r, panicSite())}
+		}
+	}()
+	switch c.Dec {
+	case "mnm":
+		p := tmp + ".mnm"
+		_ = os.WriteFile(p, c.Data, 0o644)
+		names, err := metadata.ReadMetricNames(p)
+		if err != nil {
+			return decOut{Code: 1, Msg: err.Error()}
+		}
+		var ks []string
+		for k := range names {
+			ks = append(ks, k)
+		}
+		sort.Strings(ks)
+		for _, k := range ks {
+			o.Names = append(o.Names, []byte(k))
+		}
+	case "mbsu":
+		p := tmp + ".mbsu"
+		_ = os.WriteFile(p, c.Data, 0o644)
+		l, err := microreader.ReadMetricsBlockSummaries(p)
+		if err != nil {
+			return decOut{Code: 1, Msg: err.Error()}
+		}
+		for _, m := range l {
+			o.Mbs = append(o.Mbs, [3]uint64{uint64(m.Blknum), uint64(m.HighTs), uint64(m.LowTs)})
+		}
+	case "bsu":
+		p := tmp + ".bsu"
+		_ = os.WriteFile(p, c.Data, 0o644)
+		sums, allBmi, err := microreader.ReadBlockSummaries(p, false)
+		if err != nil {
+			return decOut{Code: 1, Msg: err.Error()}
+		}
+		for _, s := range sums {
+			o.Sums = append(o.Sums, [3]uint64{s.HighTs, s.LowTs, uint64(s.RecCount)})
+		}
+		idxName := map[int]string{}
+		for n, i := range allBmi.CnameDict {
+			idxName[i] = n
+		}
+		var nums []int
+		for n := range allBmi.AllBmh {
+			nums = append(nums, int(n))
+		}
+		sort.Ints(nums)
+		for _, n := range nums {
+			b := decBlock{Num: uint16(n)}
+			for i, col := range allBmi.AllBmh[uint16(n)].ColBlockOffAndLen {
+				if col.Offset == 0 && col.Length == 0 {
+					continue
+				}
+				b.Cols = append(b.Cols, decCol{Name: []byte(idxName[i]), Off: uint64(col.Offset), Len: col.Length})
+			}
+			o.Blocks = append(o.Blocks, b)
+		}
+	case "cmi":
+		cmic, err := metadata.VerifGetCmi(c.Data)
+		if err != nil {
+			return decOut{Code: 1, Msg: err.Error()}
+		}
+		if cmic.Bf != nil {
+			// a bloom that was accepted must be usable: Test computes h mod m
+			_ = cmic.Bf.Test([]byte("alpha"))
+			var wb bytes.Buffer
+			_, _ = cmic.Bf.WriteTo(&wb)
+			bitsetLen := uint64(0)
+			if wb.Len() >= 24 {
+				bitsetLen = binary.BigEndian.Uint64(wb.Bytes()[16:24])
+			}
+			o.Bloom = &[3]uint64{uint64(cmic.Bf.Cap()), uint64(cmic.Bf.K()), bitsetLen}
+		}
+		var ks []string
+		for k := range cmic.Ranges {
+			ks = append(ks, k)
+		}
+		sort.Strings(ks)
+		for _, k := range ks {
+			n := cmic.Ranges[k]
+			if n == nil {
+				o.Ranges = append(o.Ranges, decRange{Key: []byte(k), Nil: true})
+				continue
+			}
+			r := decRange{Key: []byte(k), Ty: uint8(n.NumType)}
+			switch n.NumType {
+			case sutils.RNT_UNSIGNED_INT:
+				r.Mn, r.Mx = n.Min_uint64, n.Max_uint64
+			case sutils.RNT_SIGNED_INT:
+				r.Mn, r.Mx = uint64(n.Min_int64), uint64(n.Max_int64)
+			case sutils.RNT_FLOAT64:
+				r.Mn, r.Mx = math.Float64bits(n.Min_float64), math.Float64bits(n.Max_float64)
+			}
+			o.Ranges = append(o.Ranges, r)
+		}
+	}
+	return o
+}
+
+// worker decode <dir> <cases.json> <out.jsonl> <from>: one output line per case, appended as soon as
+// the case is done (a case that kills the process is the first one without a line)
+func workerDecode(dir, inPath, outPath string, from int) {
+	log.SetLevel(log.PanicLevel)
+	config.InitializeTestingConfig(dir + "/")
+	b, err := os.ReadFile(inPath)
+	if err != nil {
+		os.Exit(3)
+	}
+	var cases []decCase
+	if err := json.Unmarshal(b, &cases); err != nil {
+		os.Exit(3)
+	}
+	f, err := os.OpenFile(outPath, os.O_WRONLY|os.O_CREATE|os.O_APPEND, 0o644)
+	if err != nil {
+		os.Exit(3)
+	}
+	for i := from; i < len(cases); i++ {
+		o := decodeOne(cases[i], dir+"/dec")
+		o.I = i
+		lb, _ := json.Marshal(o)
+		_, _ = f.Write(append(lb, '\n'))
+	}
+	f.Close()
 	os.Exit(0)
 }
